@@ -16,6 +16,7 @@ fn main() {
     let a: Vec<String> = std::env::args().collect();
     match a.get(1).map(|s| s.as_str()) {
         Some("c01") => c01::run(&a[2..]),
+        Some("c01-dump") => c01::dump(&a[2..]),
         Some("c02") => c02::run(&a[2..]),
         Some("c03") => c03::run("c03", &a[2..]),
         Some("c11") => c11::run(&a[2..]),
